@@ -680,6 +680,118 @@ pub fn script_scenario(prop: &str, shape: Shape, scripts: Vec<Vec<Op>>, oracle: 
             _ => {}
           }
         }
+        // ---- real-time order: what had returned before a call started is visible
+        // to that call (calls of different threads that overlap may go either way)
+        if bad.is_none() && one_thread_each {
+          let mut ac: Vec<&Call> = calls.iter().filter(|c| matches!(c.op, Op::NextA(_))).collect();
+          ac.sort_by_key(|c| c.start);
+          let mut bc: Vec<&Call> = calls.iter().filter(|c| matches!(c.op, Op::NextB(_))).collect();
+          bc.sort_by_key(|c| c.start);
+          let val = |c: &Call| match c.op {
+            Op::NextA(v) | Op::NextB(v) => v,
+            _ => 0,
+          };
+          // first terminal / teardown call of any kind: claims are made only for
+          // calls that had returned before it started
+          let quiet_until = calls
+            .iter()
+            .filter(|c| !matches!(c.op, Op::NextA(_) | Op::NextB(_) | Op::Subscribe | Op::SubscribeNesting))
+            .map(|c| c.start)
+            .min()
+            .unwrap_or(u64::MAX);
+          match shape {
+            Shape::WithLatestFrom | Shape::CombineLatest => {
+              let mut prev: Option<(usize, usize)> = None;
+              for v in &got {
+                let (i, j) = (idx(&a_items, v / 1000).unwrap(), idx(&b_items, v % 1000).unwrap());
+                // which arrival produced this output
+                let by_a = shape == Shape::WithLatestFrom || prev.map_or(true, |(pi, _)| i != pi);
+                let by_b = shape == Shape::CombineLatest && prev.map_or(true, |(_, pj)| j != pj);
+                if by_a && !(by_b && prev.is_none()) {
+                  // partner values whose call had returned before this a-call started
+                  let newest = bc.iter().rposition(|c| c.end < ac[i].start);
+                  if let Some(l) = newest {
+                    if j < l {
+                      bad = Some(format!(
+                        "{} was combined with {}, although next({}) on the other input had returned before next({}) started",
+                        a_items[i], b_items[j], val(bc[l]), a_items[i]
+                      ));
+                    }
+                  }
+                }
+                if by_b && !by_a {
+                  let newest = ac.iter().rposition(|c| c.end < bc[j].start);
+                  if let Some(l) = newest {
+                    if i < l {
+                      bad = Some(format!(
+                        "{} was combined with {}, although next({}) on the other input had returned before next({}) started",
+                        b_items[j], a_items[i], val(ac[l]), b_items[j]
+                      ));
+                    }
+                  }
+                }
+                prev = Some((i, j));
+              }
+            }
+            Shape::Sample => {
+              // a tick that no source call overlaps releases the newest item that
+              // had arrived before it, unless an earlier tick already did
+              for t in bc.iter().filter(|t| t.end < quiet_until) {
+                if ac.iter().any(|c| c.start < t.end && c.end > t.start) {
+                  continue;
+                }
+                if let Some(x) = ac.iter().rev().find(|c| c.end < t.start) {
+                  if !got.contains(&val(x)) {
+                    bad = Some(format!(
+                      "next({}) had returned before the tick {:?} started and nothing newer arrived before it ended, yet {} was never released",
+                      val(x), t.op, val(x)
+                    ));
+                  }
+                }
+              }
+            }
+            Shape::TakeUntil | Shape::SkipUntil => {
+              if let Some(first) = bc.first() {
+                for c in ac.iter().filter(|c| c.end < quiet_until) {
+                  let before = c.end < first.start;
+                  let after = c.start > first.end;
+                  let delivered = got.contains(&val(c));
+                  let want = if shape == Shape::TakeUntil { before } else { after };
+                  let must_not = if shape == Shape::TakeUntil { after } else { before };
+                  if (want && !delivered) || (must_not && delivered) {
+                    bad = Some(format!(
+                      "item {} ({} the notifier's first item) was {}delivered",
+                      val(c),
+                      if before { "emitted before" } else { "emitted after" },
+                      if delivered { "" } else { "not " }
+                    ));
+                  }
+                }
+              }
+            }
+            Shape::Buffer => {
+              // everything that had arrived before the last undisturbed tick started is out by now
+              if let Some(t) = bc.iter().rev().find(|t| t.end < quiet_until) {
+                let mut flat: Vec<Item> = vec![];
+                for v in &got {
+                  let mut x = *v;
+                  let mut b = vec![];
+                  while x > 0 {
+                    b.push(x % 100);
+                    x /= 100;
+                  }
+                  flat.extend(b);
+                }
+                for c in ac.iter().filter(|c| c.end < t.start) {
+                  if !flat.contains(&val(c)) {
+                    bad = Some(format!("next({}) had returned before the tick {:?} started, yet it is in no buffer", val(c), t.op));
+                  }
+                }
+              }
+            }
+            _ => {}
+          }
+        }
         if let Some(b) = bad {
           ctx.fail(
             format!("{prop}:content:{}", shape.name()),
@@ -727,16 +839,27 @@ pub fn script_scenario(prop: &str, shape: Shape, scripts: Vec<Vec<Op>>, oracle: 
           Some(d) => s.iter().enumerate().all(|(i, o)| !matches!(o, Op::NextA(_)) || i < d),
           None => !s.iter().any(|o| matches!(o, Op::NextA(_))),
         });
-        if shape != Shape::Sample && undisturbed && one_completion && owner_last && !a_items.is_empty() {
+        let no_completion = !ops.contains(&Op::CompleteA);
+        if shape != Shape::Sample
+          && undisturbed
+          && ((one_completion && owner_last) || no_completion)
+          && a_threads.len() == 1
+          && !a_items.is_empty()
+        {
+          // every timer task has run by now (the pool is drained): the final item
+          // was the last of its window / had its quiet period, completed or not
           let last_ok = got.last() == a_items.last();
           let first_ok = shape != Shape::Throttle || got.first() == a_items.first();
-          if !(last_ok && first_ok && notes.last() == Some(&Note::C)) {
+          let term_ok = if no_completion { !notes.iter().any(|n| n.is_terminal()) } else { notes.last() == Some(&Note::C) };
+          if !(last_ok && first_ok && term_ok) {
             ctx.fail(
               format!("{prop}:final-item-or-completion:{}", shape.name()),
               format!(
-                "source emitted {a_items:?} and completed; output [{}] (expected {}the final item, then the completion)",
+                "source emitted {a_items:?}{}, every timer has fired; output [{}] (expected {}the final item{})",
+                if no_completion { "" } else { " and completed" },
                 fmt_notes(&notes),
-                if shape == Shape::Throttle { "the first item, " } else { "" }
+                if shape == Shape::Throttle { "the first item, " } else { "" },
+                if no_completion { "" } else { ", then the completion" }
               ),
             );
           }
@@ -1276,6 +1399,71 @@ pub fn share_scenario(bound: u32, max_execs: u64) -> Scenario {
   }
 }
 
+/// share_threads: A joins while B joins and leaves again
+pub fn share_leave_scenario(bound: u32, max_execs: u64) -> Scenario {
+  Scenario {
+    name: format!("share_threads: subscribe A || (subscribe B, B leaves), emit, A leaves, emit c<={bound}"),
+    sig: "share_threads".into(),
+    bound,
+    max_execs,
+    body: Arc::new(move |ctx: &Arc<Ctx>, out: &mut Out| {
+      let mut src = Subj::default();
+      let taps = Arc::new(AtomicUsize::new(0));
+      let subs = Arc::new(AtomicUsize::new(0));
+      let (t2, s2, srcc) = (taps.clone(), subs.clone(), src.clone());
+      let shared = observable::defer(move || {
+        s2.fetch_add(1, Ordering::SeqCst);
+        srcc.clone()
+      })
+      .tap(move |_| {
+        t2.fetch_add(1, Ordering::SeqCst);
+      })
+      .share_threads();
+      let (pa, pb) = (TProbe::new("a", ctx), TProbe::new("b", ctx));
+      let (sa, pa2) = (shared.clone(), pa.clone());
+      let ta = shuttle::thread::spawn(move || sa.actual_subscribe(pa2));
+      let (sb, pb2) = (shared.clone(), pb.clone());
+      let tb = shuttle::thread::spawn(move || sb.actual_subscribe(pb2).unsubscribe());
+      let ua = ta.join().unwrap();
+      tb.join().unwrap();
+      if subs.load(Ordering::SeqCst) != 1 {
+        ctx.fail("C11:source-subscriptions:share_threads", format!("source subscribed {} times", subs.load(Ordering::SeqCst)));
+      }
+      let t0 = taps.load(Ordering::SeqCst);
+      src.next(1);
+      let driven = taps.load(Ordering::SeqCst) - t0;
+      let a_got = pa.notes() == vec![Note::N(1)];
+      // either A joined a live share (it is present: it receives the item), or B
+      // had come and gone first and the share had released its source for good
+      if !((driven == 1 && a_got) || (driven == 0 && pa.notes().is_empty())) {
+        ctx.fail(
+          "C11:multicast:share_threads",
+          format!(
+            "B joined and left while A was joining; then the source emitted: the upstream ran {driven} times on the share's behalf, A (still subscribed) saw [{}]",
+            fmt_notes(&pa.notes())
+          ),
+        );
+      }
+      ua.unsubscribe();
+      let t1 = taps.load(Ordering::SeqCst);
+      src.next(2);
+      if taps.load(Ordering::SeqCst) != t1 {
+        ctx.fail("C11:driven-after-last-unsubscribe:share_threads", "the upstream tap ran after the last subscriber had left");
+      }
+      if !pb.notes().is_empty() || pa.notes().len() > 1 {
+        ctx.fail(
+          "C11:multicast:share_threads",
+          format!("delivered to a subscriber that had left: A [{}] B [{}]", fmt_notes(&pa.notes()), fmt_notes(&pb.notes())),
+        );
+      }
+      out.delivered = (pa.notes().len() + pb.notes().len()) as u64 + driven as u64;
+      out.note(&pa.notes());
+      out.note(&vec![Note::N(driven as Item)]);
+      out.trace.push(format!("A [{}] B [{}] driven {driven}", fmt_notes(&pa.notes()), fmt_notes(&pb.notes())));
+    }),
+  }
+}
+
 // ----------------------------------------------------------- plans
 
 pub struct Plan {
@@ -1467,9 +1655,10 @@ pub fn plan(prop: &str, tier: Tier) -> Option<Plan> {
     "C11" => {
       let c = if q { 3 } else { 4 };
       sc.push(share_scenario(c, CAP));
+      sc.push(share_leave_scenario(c, CAP));
       Some(Plan {
         scenarios: sc,
-        rule: "share_threads over a hot source behind a counting tap: two threads subscribe concurrently (one of them connects), then A leaves, the source emits, B leaves, the source emits; every schedule of the two joins within the preemption bound; oracle: one source subscription, each subscriber sees exactly the items emitted while it was present, the upstream is not driven after the last leaver".into(),
+        rule: "share_threads over a hot source behind a counting tap: two threads subscribe concurrently (one of them connects), then A leaves, the source emits, B leaves, the source emits; every schedule of the two joins within the preemption bound; oracle: one source subscription, each subscriber sees exactly the items emitted while it was present, the upstream is not driven after the last leaver; and A joining while B joins and leaves again: A then either receives what the source emits or the share had already released its source (never: source driven, A present, nothing delivered)".into(),
         bounds: json!({"preemptions": c}),
         assumptions: vec!["sequentially consistent memory".into()],
       })
@@ -1505,13 +1694,25 @@ pub fn plan(prop: &str, tier: Tier) -> Option<Plan> {
           vec![vec![Op::CompleteA], vec![Op::CompleteB]],
           vec![vec![Op::NextA(1), Op::NextA(2), Op::CompleteA], vec![Op::NextB(3), Op::NextB(4), Op::CompleteB]],
           vec![vec![Op::NextA(1), Op::NextA(2)], vec![Op::NextB(3), Op::CompleteB]],
+          vec![vec![Op::NextA(1), Op::NextA(2), Op::NextA(3)], vec![Op::NextB(4), Op::NextB(5)]],
+          vec![vec![Op::NextA(1), Op::CompleteA], vec![Op::NextB(3), Op::NextB(4), Op::NextB(5)]],
         ] {
           sc.push(script_scenario("C04", shape, s, Oracle::Serialise, c, CAP));
+        }
+        if !q {
+          sc.push(script_scenario(
+            "C04",
+            shape,
+            vec![vec![Op::NextA(1), Op::NextA(2), Op::NextA(3), Op::CompleteA], vec![Op::NextB(4), Op::NextB(5), Op::NextB(6), Op::CompleteB]],
+            Oracle::Serialise,
+            2,
+            CAP,
+          ));
         }
       }
       Some(Plan {
         scenarios: sc,
-        rule: "the two inputs of merge/zip/combine_latest/with_latest_from/take_until/skip_until/sample/buffer (_threads forms) driven by one thread each (items then completion); every schedule within the preemption bound; oracle on the final state, which the definitions fix whatever the interleaving: the output has completed exactly when the definition says so (merge/zip/combine_latest: both inputs; the others: the main input), merge delivered every item of both inputs exactly once, notification grammar, no overlapping callbacks, every call returns".into(),
+        rule: "the two inputs of merge/zip/combine_latest/with_latest_from/take_until/skip_until/sample/buffer (_threads forms) driven by one thread each (items then completion); every schedule within the preemption bound; oracle on the final state, which the definitions fix whatever the interleaving: the output has completed exactly when the definition says so (merge/zip/combine_latest: both inputs; the others: the main input), merge delivered every item of both inputs exactly once and each input's items in its own order; zip's i-th output is the pair of the i-th items and there are exactly min(|a|,|b|) of them; the combinations of combine_latest advance one input by one item per output and end with the latest values of both; with_latest_from uses each main item at most once, in order, with a non-decreasing partner; take_until's output is a prefix and skip_until's a gap-free suffix of the main input; the concatenated buffers of buffer(notifier) are a prefix of (on completion: all of) the main input; sample delivers source items only, at most once, in order; notification grammar, no overlapping callbacks, every call returns".into(),
         bounds: json!({"preemptions": c}),
         assumptions: vec!["sequentially consistent memory".into()],
       })
